@@ -234,3 +234,46 @@ func shortErr(err error) string {
 }
 
 var _ = ast.Inspect
+
+func sortStrings(s []string) { sort.Strings(s) }
+
+// decorateAll appends mk(node, point) to every decoration point of every node of the tree
+// (points found by reflection over each node's Decs struct). An empty string skips the point.
+func decorateAll(root dst.Node, mk func(n dst.Node, point string) string) int {
+	count := 0
+	dst.Inspect(root, func(n dst.Node) bool {
+		if n == nil {
+			return false
+		}
+		v := reflect.ValueOf(n).Elem().FieldByName("Decs")
+		if !v.IsValid() {
+			return true
+		}
+		forEachDecs(v, func(name string, d *dst.Decorations) {
+			if s := mk(n, name); s != "" {
+				*d = append(*d, s)
+				count++
+			}
+		})
+		return true
+	})
+	return count
+}
+
+// extraSnippets are small hand-written sources that contain the constructs the corpus sample may
+// miss (EmptyStmt, labels, generics, every literal kind, Bad nodes). Values that do not parse
+// cleanly are marked by a name starting with "bad:".
+func extraSnippets() map[string]string {
+	return map[string]string{
+		"empty-stmt":   "package p\n\nfunc f() {\n\t;\n\tfor {\n\t\t;\n\t}\nL:\n\t;\n\tgoto L\n}\n",
+		"generics":     "package p\n\ntype S[T any, U comparable] struct {\n\ta T\n\tb map[U][]T\n}\n\nfunc F[T ~int | ~string, U any](x T, y ...U) (r T) {\n\tvar s S[T, int]\n\t_ = s\n\treturn G[T, U](x)\n}\n",
+		"literals":     "package p\n\nvar (\n\ta = 1\n\tb = 1.5e3\n\tc = 'x'\n\td = \"s\"\n\te = `raw\nstring`\n\tf = 2i\n\tg = [...]int{1, 2: 3}\n\th = map[string]struct{ X, Y int }{\"k\": {1, 2}}\n\ti = func(x int) (y int) { return x }\n\tj = <-ch\n\tk = (*T)(nil)\n\tl = x.(type1)\n\tm = s[1:2:3]\n\tn = &T{A: 1}\n)\n",
+		"statements":   "package p\n\nfunc f(ch chan<- int, in <-chan int) {\n\tdefer g()\n\tgo g()\n\tch <- 1\n\ti++\n\tselect {\n\tcase v, ok := <-in:\n\t\t_, _ = v, ok\n\tcase ch <- 2:\n\tdefault:\n\t}\n\tswitch x := y.(type) {\n\tcase int, string:\n\t\t_ = x\n\tdefault:\n\t}\n\tswitch {\n\tcase a > b:\n\t\tfallthrough\n\tdefault:\n\t}\n\tfor i := 0; i < 10; i++ {\n\t\tcontinue\n\t}\n\tfor k, v := range m {\n\t\t_, _ = k, v\n\t}\n\tfor range ch2 {\n\t\tbreak\n\t}\n\tif x := 1; x > 0 {\n\t} else if y {\n\t} else {\n\t}\n\tvar z int\n\tconst c = iota\n\ttype T int\n\t{\n\t\treturn\n\t}\n}\n",
+		"interfaces":   "package p\n\ntype I interface {\n\tM(x int) error\n\tE\n\t~int | string\n}\n\ntype C chan int\ntype A = B\ntype F func(a, b int, c ...string) (x, y int)\n",
+		"bad:decl":     "package p\n\nvar x = 1\n\n}}} bad\n\nfunc g() {}\n",
+		"bad:stmt":     "package p\n\nfunc f() {\n\tx := 1\n\t) ) bad\n\ty := 2\n}\n",
+		"bad:expr":     "package p\n\nfunc f() {\n\tx := 1 + \n}\n\nvar y = [}\n",
+		"cgo":          "package p\n\n/*\n#include <stdio.h>\n*/\nimport \"C\"\n\nimport (\n\t\"fmt\"\n\t_ \"embed\"\n\tm \"math\"\n)\n\nfunc f() {\n\tfmt.Println(m.Pi, C.int(1))\n}\n",
+		"comments":     "// Copyright\n\n//go:build linux\n\n// Package p doc.\npackage p // trailing\n\n// Doc of f.\nfunc f( /* a */ x int /* b */) { // open\n\t// inside\n\tg() // after g\n\n\t/* block */\n\n\t// hanging\n}\n\n// trailing file comment\n",
+	}
+}
